@@ -59,4 +59,53 @@ theorem ratTrunc_eq (q : Rat) : PyNum.ratTrunc q = Iso.truncate q := by
     · have : ¬ 0 ≤ q := fun h => hn (Rat.num_nonneg.mpr h)
       simp [hn, this, hnd, Int.sign_eq_one_of_pos hpos]
 
+/-! ## two's-complement bits -/
+set_option linter.unusedSimpArgs false
+
+theorem bit_eq_shift (a : Int) (i : Nat) : Iso.bit a i = decide ((a >>> i) % 2 = 1) := by
+  unfold Iso.bit Iso.floorDiv
+  rw [Int.shiftRight_eq_div_pow, Int.fdiv_eq_ediv_of_nonneg]
+  · simp
+  · exact Int.le_of_lt (Int.pow_pos (by decide))
+
+theorem bit_ofNat (m i : Nat) : Iso.bit (Int.ofNat m) i = m.testBit i := by
+  rw [bit_eq_shift, Nat.testBit_eq_decide_div_mod_eq]
+  show decide (((m >>> i : Nat) : Int) % 2 = 1) = _
+  rw [Nat.shiftRight_eq_div_pow]
+  congr 1
+  apply propext
+  omega
+
+theorem bit_negSucc (m i : Nat) : Iso.bit (Int.negSucc m) i = !m.testBit i := by
+  rw [bit_eq_shift, Nat.testBit_eq_decide_div_mod_eq]
+  show decide ((Int.negSucc (m >>> i)) % 2 = 1) = _
+  rw [Nat.shiftRight_eq_div_pow]
+  generalize m / 2 ^ i = k
+  by_cases h : k % 2 = 1
+  · have : ¬ (Int.negSucc k % 2 = 1) := by omega
+    simp [h, this]
+  · have : Int.negSucc k % 2 = 1 := by omega
+    simp [h, this]
+
+theorem bit_land (a b : Int) (i : Nat) : Iso.bit (PyNum.landInt a b) i = (Iso.bit a i && Iso.bit b i) := by
+  cases a <;> cases b <;> simp only [PyNum.landInt] <;>
+    first
+    | (rw [← Int.ofNat_eq_natCast]; simp only [bit_ofNat, bit_negSucc, Nat.testBit_and, Nat.testBit_or, Nat.testBit_xor])
+    | simp only [bit_ofNat, bit_negSucc, Nat.testBit_and, Nat.testBit_or, Nat.testBit_xor]
+  all_goals (rename_i m n; cases m.testBit i <;> cases n.testBit i <;> rfl)
+
+theorem bit_lor (a b : Int) (i : Nat) : Iso.bit (PyNum.lorInt a b) i = (Iso.bit a i || Iso.bit b i) := by
+  cases a <;> cases b <;> simp only [PyNum.lorInt] <;>
+    first
+    | (rw [← Int.ofNat_eq_natCast]; simp only [bit_ofNat, bit_negSucc, Nat.testBit_and, Nat.testBit_or, Nat.testBit_xor])
+    | simp only [bit_ofNat, bit_negSucc, Nat.testBit_and, Nat.testBit_or, Nat.testBit_xor]
+  all_goals (rename_i m n; cases m.testBit i <;> cases n.testBit i <;> rfl)
+
+theorem bit_xor (a b : Int) (i : Nat) : Iso.bit (PyNum.xorInt a b) i = (Iso.bit a i ^^ Iso.bit b i) := by
+  cases a <;> cases b <;> simp only [PyNum.xorInt] <;>
+    first
+    | (rw [← Int.ofNat_eq_natCast]; simp only [bit_ofNat, bit_negSucc, Nat.testBit_and, Nat.testBit_or, Nat.testBit_xor])
+    | simp only [bit_ofNat, bit_negSucc, Nat.testBit_and, Nat.testBit_or, Nat.testBit_xor]
+  all_goals (rename_i m n; cases m.testBit i <;> cases n.testBit i <;> rfl)
+
 end ProbLogProofs.ArithLemmas
